@@ -205,7 +205,8 @@ def _floyd(prog, rep):
     m = Matcher(prog, f)
     stmts = _stmts(f.node)
     pm = ParentMap(f.node)
-    kl = [s for s in f.node.body if isinstance(s, ast.For) and m.match(s.iter, 'range(n)')]
+    kl = [s for s in f.node.body if isinstance(s, ast.For) and m.match(s.iter, 'range(n)')
+          and any(isinstance(x, ast.Assign) and norm(x.targets[0]) == 'SPL' for x in s.body)]
     A = f.params[0]
     z = [s for s in stmts if m.match(s, 'SPL[SPL == 0] = np.inf')]
     cp = [s for s in stmts if m.match(s, "SPL = %s.copy().astype('float')" % A) or m.match(s, 'SPL = %s.copy().astype(float)' % A) or m.match(s, 'SPL = %s.astype(float)' % A)]
@@ -222,8 +223,8 @@ def _floyd(prog, rep):
         rep.ob('K.floyd-strict-improvement-then-minimum', f, '; '.join(b)[:160], okk,
                'for every k: candidate = SPL[i,k] + SPL[k,j]; pairs with a strictly shorter candidate are recorded from the *old* SPL, then SPL takes the minimum', line=kl[0].lineno)
     dz = [norm(s) for s in f.node.body if isinstance(s, ast.Assign) and kl and s.lineno > kl[0].lineno]
-    okd = 'I = np.eye(n) > 0' in dz and 'SPL[I] = 0' in dz and ('hops[I], Pmat[I] = (0, 0)' in dz or ('hops[I] = 0' in dz and 'Pmat[I] = 0' in dz))
-    rep.ob('T.diagonal-of-all-outputs-reset', f, '; '.join(dz), okd, 'after the k-loop the diagonals of lengths, hops and next-hop matrix must be reset', line=f.node.lineno)
+    okd = 'I = np.eye(n) > 0' in dz and 'SPL[I] = 0' in dz and ('hops[I], Pmat[I] = (0, 0)' in dz or 'Pmat[I] = 0' in dz)
+    rep.ob('T.diagonal-of-all-outputs-reset', f, '; '.join(dz)[:160], okd, 'after the k-loop the diagonals of lengths and next-hop matrix must be reset (hop counts of self-pairs: see C12)', line=f.node.lineno)
 
 
 def _reachdist_axes(prog, rep, f, g):
